@@ -897,6 +897,8 @@ async fn fetch_actor(rec: Arc<Mutex<FetchRec>>, obj: Obj, expect_id: u32, expect
                     rec.lock().unwrap().bad.get_or_insert(("wrong-length", format!("{name}: len() = {other:?}, provided were {} bytes", expect.len())));
                 }
             }
+            // A second holder on the same endpoint (clones share the fetched data).
+            let second = if kit::coin(1, 2) { Some(blob.clone()) } else { None };
             let r1 = blob.get().await.map(|d| (expect_id, Vec::from(d))).map_err(|e| e.to_string());
             let first_ok = r1.is_ok();
             note(&rec, "get", r1);
@@ -907,6 +909,15 @@ async fn fetch_actor(rec: Arc<Mutex<FetchRec>>, obj: Obj, expect_id: u32, expect
             note(&rec, "get again", r2);
             let r3 = blob.into_inner().await.map(|d| (expect_id, Vec::from(d))).map_err(|e| e.to_string());
             note(&rec, "into_inner", r3);
+            if let Some(second) = second
+                && first_ok
+            {
+                kit::probe("blob_second_holder_after_into_inner");
+                let r4 = second.get().await.map(|d| (expect_id, Vec::from(d))).map_err(|e| e.to_string());
+                note(&rec, "second holder get", r4);
+                let r5 = second.into_inner().await.map(|d| (expect_id, Vec::from(d))).map_err(|e| e.to_string());
+                note(&rec, "second holder into_inner", r5);
+            }
         }
         _ => {}
     }
